@@ -60,6 +60,12 @@ type Plan struct {
 	Fences             bool   // yield fences in readFrames / sendServeMsg are active
 	CaptureFences      bool   // yield before every lock around the captured fingerprint data (serve loop)
 	BodyReadFences     bool   // yield in noteBodyReadFromHandler (request body credit message)
+	// LocalAbandon: requests (by tag) that are not handed to the reverse proxy but to a stub of a
+	// library user's handler that reads ReadBytes of the request body, closes it, sends its
+	// response header, stays busy for HoldMS of simulated time and then answers "abandoned:<tag>"
+	// - the "handler abandons the body while the stream stays open" case of C12's quantifier (with
+	// go1.26's httputil.ReverseProxy the inbound body is never closed before the handler returns)
+	LocalAbandon map[string]AbandonPlan
 	WriteFences        bool   // yield at the start of writeFrameAsync: a frame write stays in flight as long as the controller likes (stand-in for TCP back-pressure)
 	H2DecoderTableSize uint32 // > 0: proxyserver.Server.HTTP2Server.MaxDecoderHeaderTableSize
 	CancelBeforeServe  bool
@@ -487,6 +493,10 @@ func NewWorld(t testingT, plan *Plan) *World {
 				panic("verif: injected handler panic")
 			}
 			if tag := r.Header.Get("X-Tag"); tag != "" {
+				if ab, ok := plan.LocalAbandon[tag]; ok {
+					w.abandonHandler(rw, r, tag, ab)
+					return
+				}
 				r = r.WithContext(WithTag(r.Context(), tag))
 			}
 			inner.ServeHTTP(rw, r)
@@ -688,6 +698,29 @@ func (w *World) backendTunnel(rw http.ResponseWriter, r *http.Request, rec *Back
 			return
 		}
 	}
+}
+
+// AbandonPlan: see Plan.LocalAbandon.
+type AbandonPlan struct {
+	ReadBytes int
+	HoldMS    int
+}
+
+func (w *World) abandonHandler(rw http.ResponseWriter, r *http.Request, tag string, ab AbandonPlan) {
+	if ab.ReadBytes > 0 {
+		io.ReadFull(r.Body, make([]byte, ab.ReadBytes))
+	}
+	r.Body.Close()
+	w.Probe("handler_abandoned_request_body")
+	rw.Header().Set("X-Abandoned", tag)
+	rw.WriteHeader(200)
+	if f, ok := rw.(http.Flusher); ok {
+		f.Flush()
+	}
+	// busy elsewhere: the clock moves only when nothing else in the world can, so everything the
+	// client sends in the meantime meets an open stream whose request body is closed
+	time.Sleep(time.Duration(ab.HoldMS) * time.Millisecond)
+	io.WriteString(rw, "abandoned:"+tag)
 }
 
 func (w *World) backendHandler(rw http.ResponseWriter, r *http.Request) {
